@@ -90,8 +90,8 @@ def show(notes, limit=40):
 
 def show_groups(groups, limit=12):
     def one(it):
-        s = f"{it[1]}:c{it[2]}:{it[3]}" + (f"[{it[5]}]" if it[5] is not None else "")
-        return s + (f"->{it[6]}" if it[0] == "W" else "")
+        s = f"{F(it[1])}:c{it[2]}:{it[3]}" + (f"[{it[5]}]" if it[5] is not None else "")
+        return s + (f"->{F(it[6])}" if it[0] == "W" else "")
 
     return "[" + ", ".join("(" + " ".join(one(it) for it in g) + ")" for g in groups[:limit]) + (", ..." if len(groups) > limit else "") + f"] ({len(groups)} groups)"
 
